@@ -113,6 +113,9 @@ func (g *Graph) Reachable(roots ...*ssa.Function) map[*ssa.Function]bool {
 	}
 	out := map[*ssa.Function]bool{}
 	for f := range seen {
+		if g.p.transparent[f] {
+			continue // scanned as part of each function that calls it
+		}
 		if g.p.InModule(f) || g.p.analysable(f) {
 			out[f] = true
 		}
